@@ -147,7 +147,7 @@ def coqc_script(name, text, timeout=600):
     with open(p, 'w') as f:
         f.write(text)
     r = subprocess.run(
-        ['timeout', str(timeout), 'coqc', '-Q', COQ, LOGICAL, '-w', '-all', p],
+        ['bash', '-c', 'ulimit -s unlimited 2>/dev/null; exec timeout "$0" coqc -Q "$1" "$2" -w -all "$3"', str(timeout), COQ, LOGICAL, p],
         cwd=d,
         capture_output=True,
         text=True,
